@@ -1,4 +1,5 @@
 import Pyxv.Proofs.RowsLemmas
+import Pyxv.Model.TableList
 /-!
 # C02 — model, instance and body agree: every nodeset/ref names one existing node
 
@@ -91,6 +92,80 @@ theorem siblings_unique (root : Str) (lists : List Str) (rows : List Cells) (set
           | error e => rw [hk] at hv; simp at hv
           | ok u => exact (validateKids_ok_iff root _).mp hk
 
+/-- what `formOutN` returns when it accepts -/
+theorem formOutN_ok (root : Str) (lists : List Str) (nrows : List (Nat × Cells)) (settings : Cells) (o : FormOut)
+    (h : formOutN root lists nrows settings = .ok o) :
+    ∃ ks items, classifyNum lists nrows = .ok ks ∧ parseRows ks = .ok items ∧
+      validate root (withMeta (nrows.map (·.2)) settings items) = .ok () ∧
+      o = { items := items, inst := instanceOf root (withMeta (nrows.map (·.2)) settings items),
+            binds := bindPathsL [root] (withMeta (nrows.map (·.2)) settings items),
+            body := bodyPathsL [root] items, ctl := bodyCtlL [root] items } := by
+  unfold formOutN at h
+  cases hc : classifyNum lists nrows with
+  | error w => rw [hc] at h; simp at h
+  | ok ks =>
+    rw [hc] at h; simp only [] at h
+    cases hp : parseRows ks with
+    | error e => rw [hp] at h; simp at h
+    | ok items =>
+      rw [hp] at h; simp only [] at h
+      split at h
+      · simp at h
+      · split at h
+        · simp at h
+        · rename_i hv
+          split at h
+          · simp at h
+          · simp at h
+            exact ⟨ks, items, rfl, hp, hv, h.symm⟩
+
+/-- **Closure on numbered rows** (the pipeline the checks run): as `refs_resolve`, for `formOutN`. -/
+theorem refs_resolve_n (root : Str) (lists : List Str) (nrows : List (Nat × Cells)) (settings : Cells) (o : FormOut)
+    (h : formOutN root lists nrows settings = .ok o) :
+    ∀ p ∈ o.binds ++ o.body, resolves o.inst p = true := by
+  obtain ⟨ks, items, hc, hp, _, ho⟩ := formOutN_ok root lists nrows settings o h
+  subst ho
+  have hwf : wfL items = true := parseRows_wf ks items (classifyNum_wf lists nrows ks hc) hp
+  have hwfm := withMeta_wf (nrows.map (·.2)) settings items hwf
+  intro p hp'
+  simp only [List.mem_append] at hp'
+  rcases hp' with hp' | hp'
+  · rw [bindPathsL_prefix] at hp'
+    simp only [List.mem_map] at hp'
+    obtain ⟨q, hq, rfl⟩ := hp'
+    exact resolves_of_reach root _ q (bind_reach_list _ hwfm q hq)
+  · rw [bodyPathsL_prefix] at hp'
+    simp only [List.mem_map] at hp'
+    obtain ⟨q, hq, rfl⟩ := hp'
+    exact resolves_of_reach root _ q (reach_withMeta _ settings items q (body_reach_list _ hwf q hq))
+
+theorem siblings_unique_n (root : Str) (lists : List Str) (nrows : List (Nat × Cells)) (settings : Cells) (o : FormOut)
+    (h : formOutN root lists nrows settings = .ok o) :
+    sibsOK (withMeta (nrows.map (·.2)) settings o.items) = true := by
+  obtain ⟨ks, items, _, _, hv, ho⟩ := formOutN_ok root lists nrows settings o h
+  subst ho
+  simp only []
+  unfold validate at hv
+  cases hk : validateKids root (withMeta (nrows.map (·.2)) settings items) with
+  | error e => rw [hk] at hv; simp at hv
+  | ok u => exact (validateKids_ok_iff root _).mp hk
+
+/-- **Closure with table-list groups**: for every sheet the table-list-aware pipeline accepts — including the
+    generated `generated_table_list_label_N` note and `reserved_name_for_field_list_labels_N` header select,
+    the `*_count` / `*_other` companions and the meta block — every bind nodeset and every body ref / nodeset
+    resolves to a node of the primary instance. -/
+theorem refs_resolve_tl (root : Str) (lists : List Str) (rows : List Cells) (settings : Cells) (o : FormOut)
+    (h : TableList.formOutT root lists rows settings = .ok o) :
+    ∀ p ∈ o.binds ++ o.body, resolves o.inst p = true := by
+  unfold TableList.formOutT at h
+  split at h
+  · cases h
+  · rename_i o' ho
+    split at h
+    · cases h
+    · injection h with h; subst h
+      exact refs_resolve_n root lists _ settings o' ho
+
 /-- **Ambiguity is rejected**: if some level of the tree has two siblings whose names differ at
     most by case, validation fails (with a PyXFormError naming the element). -/
 theorem ambiguous_rejected (root : Str) (kids : List Item) (h : sibsOK kids = false) :
@@ -122,6 +197,17 @@ def exRows : List Cells := [
 
 example : (match formOut "data".toList ["yn".toList] exRows [] with
     | .ok o => o.binds.length == 7 && o.body.length == 6 && (o.binds ++ o.body).all (resolves o.inst)
+    | .error _ => false) = true := by decide +kernel
+
+-- a table-list group: the generated label note and header select are nodes, bound and referenced
+def exTLRows : List Cells := [
+  [("type".toList, "begin group".toList), ("name".toList, "t".toList), ("label".toList, "T".toList),
+   ("control::appearance".toList, "table-list".toList)],
+  [("type".toList, "select_one yn".toList), ("name".toList, "s".toList), ("label".toList, "S".toList)],
+  [("type".toList, "end group".toList)]]
+
+example : (match TableList.formOutT "data".toList ["yn".toList] exTLRows [] with
+    | .ok o => (o.binds ++ o.body).all (resolves o.inst) && o.body.length == 4 && o.binds.length == 4
     | .error _ => false) = true := by decide +kernel
 
 end Pyxv.C02
